@@ -31,3 +31,6 @@ for d in sorted((V / "seeded").iterdir()):
     (d / "meta.json").write_text(json.dumps(meta, indent=1))
     rows.append((d.name, meta.get("detected_by_quick_check"), meta["detected_now"], meta["detected_with_failing_input"], meta.get("summary", "")[:110]))
     print(rows[-1])
+
+# evidence written while a seeded change was applied must never be committed: restore the committed files
+subprocess.run(["git", "-C", str(V), "checkout", "--", "evidence"], check=False)
